@@ -73,9 +73,6 @@ def lstrip (s : Str) : Str := s.dropWhile isSpace
 def rstrip (s : Str) : Str := (s.reverse.dropWhile isSpace).reverse
 def strip (s : Str) : Str := rstrip (lstrip s)
 
-/-- `s.strip(chars)` -/
-def stripSet (p : Char → Bool) (s : Str) : Str := ((s.dropWhile p).reverse.dropWhile p).reverse
-
 /-- `s.find(needle)` -/
 def findSub (needle : Str) : Str → Option Nat
   | [] => if needle.isEmpty then some 0 else none
@@ -328,8 +325,6 @@ def replaceDouble (q : Char) : Str → Str
 /-- the three quote characters whose doubling stands for the character itself -/
 def isQuoteChar (c : Char) : Bool := c == '`' || c == '\'' || c == '"'
 
-def bracketStripSet : Char → Bool := fun x => x == '[' || x == ']'
-
 def spaceStr : Str := [' ']
 
 /-- the name and the length of the match of a name that starts with a quote character or "[";
@@ -339,8 +334,8 @@ def quotedName (t : Str) : Option (Option (Str × Nat)) :=
   | [] => none
   | c :: tl =>
       if c == '[' then
-        -- the name is the matched text `[…]` with `.strip("[]")`: every leading and trailing "[" / "]" goes
-        some ((bracketMatchLen tl).map fun n => (stripSet bracketStripSet (t.take n), n))
+        -- the name is `group(1)`, the text between the brackets (d4f87a6); `n` counts both brackets
+        some ((bracketMatchLen tl).map fun n => (tl.take (n - 2), n))
       else if isQuoteChar c then
         some ((quotedGroup c tl).map fun (g, n) => (replaceDouble c g, n))
       else none
